@@ -183,8 +183,9 @@ def is_char_prefix(e, rb):
 
 
 def expected_for(e, payload, tgt, pol):
-    """what C13 demands of a stream whose scheme is known to be e: (results regex, output units) or None when the
-    property does not say (ill-formed text other than a cut inside the last character)"""
+    """what C13 demands of a stream whose scheme is known to be e and whose text is well-formed, possibly cut inside
+    its last character (T_C13_stream_lossless_outside, T_C13_truncated_outside: every width pair except UTF-8 into
+    char): (results regex, output units); None otherwise (ill-formed text: judge_illformed)"""
     w = ENC[e][0]
     units, stray = units_of_bytes(e, payload)
     cps, used = strict_decode_all(w, units)
@@ -193,8 +194,8 @@ def expected_for(e, payload, tgt, pol):
         if w == tgt:
             return ("S*E", units)
         return ("S*E", U.encs(tgt, cps))
-    if w == tgt:
-        return None                     # same-width copy of a cut text: outside the property (passed through by design)
+    if w == tgt == 8:
+        return None                     # UTF-8 into char: raw append, the cut character passes through (F39, by design)
     n = w // 8
     rest_bytes = payload[used * n:]
     if not is_char_prefix(e, rest_bytes):
@@ -202,6 +203,76 @@ def expected_for(e, payload, tgt, pol):
     if pol == "S":
         return ("S*E", U.encs(tgt, cps) + DEFAULT_MARK[tgt])
     return ("S*D", U.encs(tgt, cps))
+
+
+def skip_relation_holds(w, tgt, mark, units, out):
+    """skip_spec (coq/UtfSpec.v) for some number of replacements: is there a segmentation of units into well-formed
+    sequences and ill-formed chunks (1..maxlen units, standing where no well-formed sequence starts) such that out
+    is the target encodings of the former and one mark for each of the latter?"""
+    n, m = len(units), len(out)
+    units, out, mark = list(units), list(out), list(mark)
+    front = {(0, 0)}
+    seen = set(front)
+    while front:
+        nxt = set()
+        for i, j in front:
+            if i == n:
+                if j == m:
+                    return True
+                continue
+            d = U.strict_decode_at(w, units, i)
+            if d is not None:
+                en = U.enc(tgt, d[0])
+                if out[j:j + len(en)] == en:
+                    nxt.add((i + d[1], j + len(en)))
+            elif out[j:j + len(mark)] == mark:
+                for L in range(1, U.MAXLEN[w] + 1):
+                    if i + L <= n:
+                        nxt.add((i + L, j + len(mark)))
+        front = nxt - seen
+        seen |= front
+    return False
+
+
+def judge_illformed(e, payload, tgt, pol, results, out):
+    """ill-formed text, source width <> target width (T_C13_illformed_skip / T_C13_illformed_throw)"""
+    w = ENC[e][0]
+    units, stray = units_of_bytes(e, payload)
+    mark = DEFAULT_MARK[tgt]
+    if pol == "S":
+        if not re.fullmatch(r"S*E", results):
+            return "FAIL", "skip policy: expected results S*E, got %s" % results
+        cands = [out]
+        if stray and len(out) >= len(mark) and out[len(out) - len(mark):] == mark:
+            cands.append(out[:len(out) - len(mark)])        # one more mark for the trailing part of a code unit
+        for o in cands:
+            if skip_relation_holds(w, tgt, mark, units, o):
+                return "HOLD", "replacement per skip_spec"
+        return "FAIL", "output is not the text with each ill-formed sequence replaced by the mark"
+    cps, used = strict_decode_all(w, units)
+    if not re.fullmatch(r"S*D", results):
+        return "FAIL", "fail policy: expected results S*D, got %s" % results
+    if out != U.encs(tgt, cps):
+        return "FAIL", "expected the well-formed prefix %s" % U.fl(U.encs(tgt, cps))
+    return "HOLD", "DecodeError after exactly the well-formed prefix"
+
+
+def judge_samewidth(e, payload, tgt, pol, results, out):
+    """UTF-16 into char16_t, UTF-32 into char32_t, any units (T_C13_samewidth_copy): copied as they are; a first half of a
+    surrogate pair at the very end (UTF-16) is held back; it and a trailing part of a code unit give the mark / DecodeError"""
+    units, stray = units_of_bytes(e, payload)
+    held = tgt == 16 and bool(units) and 0xD800 <= units[-1] <= 0xDBFF
+    copy = units[:-1] if held else units
+    short = held or stray > 0
+    if pol == "S":
+        want, rx = copy + (DEFAULT_MARK[tgt] if short else []), r"S*E"
+    else:
+        want, rx = copy, (r"S*D" if short else r"S*E")
+    if not re.fullmatch(rx, results):
+        return "FAIL", "same-width copy: expected results %s, got %s" % (rx, results)
+    if out != want:
+        return "FAIL", "same-width copy: expected output %s" % U.fl(want)
+    return "HOLD", "copied as is"
 
 
 def stream_defect(e, has_bom, text):
@@ -267,9 +338,15 @@ def judge_esr(case, impl_out, meta=None):
         if not has_bom and not whole_text and used == 0:
             return "UNKNOWN", "cut inside the first character of a BOM-less stream"
         return "FAIL", "source type reported as %s, the stream is %s" % (ty, e)
+    if ty != e:
+        return "UNKNOWN", "BOM-less stream that does not begin with a complete character: detection is outside the property"
     exp = expected_for(e, payload, tgt, pol)
     if exp is None:
-        return "UNKNOWN", "ill-formed text other than a cut at the end: see C12"
+        if w == tgt == 8:
+            return "UNKNOWN", "UTF-8 into char is appended raw: a cut or ill-formed text passes through by design (F39)"
+        if w == tgt:
+            return judge_samewidth(e, payload, tgt, pol, results, out)
+        return judge_illformed(e, payload, tgt, pol, results, out)
     rx, eout = exp
     if not re.fullmatch(rx, results):
         return "FAIL", "expected results %s, got %s" % (rx, results)
